@@ -271,6 +271,13 @@ def build_fn(f):
     return fn.HLQuadraticCost(*[np.array(fl(v)) if isinstance(v, list) else float(v) for v in f[1:]])
   if k == 'demand':
     return fn.DemandFunction(np.poly1d(fl(f[1])))
+  # the three numerically differentiated functions (modelled over the reals only: Model/Trans.v)
+  if k == 'entropy':
+    return fn.InformationEntropy(float(f[1]))
+  if k == 'tvar':
+    return fn.TemporalVariance(float(f[1]))
+  if k == 'cobb':
+    return fn.CobbDouglas(np.array(fl(f[1])), float(f[2]))
   raise AssertionError(k)
 
 
